@@ -30,6 +30,11 @@ import torch  # noqa: E402
 from tensordict import TensorDict  # noqa: E402
 
 
+# scratch directories (always tempfile.mkdtemp, removed per case): on tmpfs when there is one, so that the memory-mapped
+# cases do not depend on how busy the disk is
+SCRATCH = "/dev/shm" if os.path.isdir("/dev/shm") and os.access("/dev/shm", os.W_OK) else None
+
+
 # ------------------------------------------------------------------ subjects
 def numel(bs):
     n = 1
@@ -167,7 +172,7 @@ def exc_enum(e):
 
 def run_map_case(case, pool=None, record=None):
     """returns a JSON-able observation of the real map / map_iter on [case]"""
-    tmp = tempfile.mkdtemp(prefix="c12-") if "memmap" in (case.get("inp"), case.get("out")) else None
+    tmp = tempfile.mkdtemp(prefix="c12-", dir=SCRATCH) if "memmap" in (case.get("inp"), case.get("out")) else None
     try:
         td = make_input(case, tmp)
         out = make_out(case, tmp)
